@@ -302,7 +302,7 @@ func runWorkload(w Workload, dir string, hangLimit time.Duration) (res runResult
 			} else {
 				idle++
 			}
-			if dump := goroutineDump(); deadlocked(dump) {
+			if dump, ok := confirmedDeadlock(); ok {
 				// the workers are stuck for good and still own res: hand back a detached result
 				mu.Lock()
 				out := runResult{stuck: true, problems: append(append([]problem{}, res.problems...), problem{"deadlock", "workers did not finish and no goroutine of the engine or the workload can run:\n" + trimDump(dump)})}
@@ -339,8 +339,7 @@ func runWorkload(w Workload, dir string, hangLimit time.Duration) (res runResult
 			return
 		}
 	case <-time.After(hangLimit):
-		dump := goroutineDump()
-		if deadlocked(dump) {
+		if dump, ok := confirmedDeadlock(); ok {
 			res.problems = append(res.problems, problem{"deadlock", "Close did not return and no goroutine of the engine can run:\n" + trimDump(dump)})
 		} else {
 			res.problems = append(res.problems, problem{"inconclusive_slow", "Close did not return within the watchdog limit"})
